@@ -6,7 +6,7 @@ CONSTANTS
   NP = 1
   Names = {"a"}
   Vals = {1}
-  Acts = {"CreateGroup", "CreateObject", "AddData", "Move", "MoveSame", "AddToGroup", "RemoveViaWorkspace", "RemoveViaParent", "Copy", "Close", "Open", "AddDataFails", "DropRef", "Collect", "Purge", "LookupDead"}
+  Acts = {"CreateGroup", "CreateObject", "AddData", "Move", "MoveSame", "AddToGroup", "RemoveViaWorkspace", "RemoveViaParent", "RemovePair", "Copy", "Close", "Open", "AddDataFails", "DropRef", "Collect", "Purge", "LookupDead"}
   Deviations = {"CloseKeepsOrphans"}
   MaxDepth = 6
 CONSTRAINT DepthBound
